@@ -195,6 +195,9 @@ def AlongLifts (along : Along) (a : Arr Nat) (k : Nat) : Prop :=
   ∀ (f g : Arr Nat → Res (Arr Nat)) (m : Nat), 0 < m →
     (∀ l : List Nat, l.length = a.shape.getD k 0 → (∀ b ∈ l, b ∈ a.elems) →
         ∃ r : List Nat, r.length = m ∧ f (Arr.flat l) = .ok (Arr.flat r) ∧ g (Arr.flat r) = .ok (Arr.flat l)) →
+    -- both lane functions are total with a fixed output length (what `apply_along_axis` needs to run at all)
+    (∀ l : List Nat, l.length = a.shape.getD k 0 → ∃ r, f (Arr.flat l) = .ok r ∧ r.elems.length = m) →
+    (∀ l : List Nat, l.length = m → ∃ r, g (Arr.flat l) = .ok r ∧ r.elems.length = a.shape.getD k 0) →
     ∃ u, along a k f = .ok u ∧ u.ndim = a.ndim ∧ u.isEmpty = false ∧ along u k g = .ok a
 
 theorem map_elems_flat (L : List (List Nat)) : (L.map Arr.flat).map (·.elems) = L := by
@@ -202,7 +205,7 @@ theorem map_elems_flat (L : List (List Nat)) : (L.map Arr.flat).map (·.elems) =
 
 theorem alongRef_lifts (a : Arr Nat) (k : Nat) (hwf : a.WF) (hk : k < a.ndim) (hne : a.isEmpty = false) :
     AlongLifts alongRef a k := by
-  intro f g m hm hfg
+  intro f g m hm hfg _ _
   have hk' : k < a.shape.length := hk
   obtain ⟨O, hOdef⟩ : ∃ O, (a.shape.take k).prod = O := ⟨_, rfl⟩
   obtain ⟨n, hndef⟩ : ∃ n, a.shape.getD k 0 = n := ⟨_, rfl⟩
